@@ -51,11 +51,11 @@ pub(crate) fn inject(prop: &str, s: &mut Scenario, r: &mut Rng, pool: &[KeyInfo]
     let kinds: &[&str] = match prop {
         "C01" => &["caller_empty", "caller_unusable_key", "caller_unusable_key", "caller_superset", "caller_disjoint", "caller_alias", "caller_alias_described", "caller_alias_described", "owner_sig_missing", "owner_sig_corrupt", "owner_sig_mislabel", "owner_sig_duplicated", "owner_sig_duplicated_apart", "owner_sigs_under_foreign_ids", "owner_sigs_under_foreign_ids", "layout_tampered", "layout_command_resplit", "not_a_layout", "extra_sig", "layout_keys_refiled", "layout_keys_refiled", "none"],
         "C06" => &["expired_1s", "expired_long", "expired_centuries", "expires_now", "expires_plus1", "expires_far_future", "offset_notation", "offset_expired", "verified_again_after_expiry", "verified_again_after_expiry", "sub_expired", "sub_expired_surplus", "sub_expired_surplus", "none"],
-        "C02" => &["step_without_functionaries", "step_without_functionaries", "link_removed", "link_wrong_signer", "link_mislabel", "link_tampered", "link_corrupt", "link_unauthorized", "key_not_in_table", "verifier_key_as_functionary", "verifier_key_as_functionary", "link_garbage", "link_misfiled", "link_cosigned_forgery", "cosigned_next_to_differing", "threshold_zero_nolinks", "threshold_zero_norules", "threshold_zero_norules", "threshold_zero_onelink", "threshold_raised", "threshold_raised", "link_wrong_type", "ghost_authorized_prefix", "ghost_authorized_prefix", "twin_unauthorized", "twin_unauthorized", "duplicate_step_unmet", "duplicate_step_unmet", "none"],
+        "C02" => &["step_without_functionaries", "step_without_functionaries", "link_removed", "link_wrong_signer", "link_mislabel", "link_tampered", "link_corrupt", "link_unauthorized", "key_not_in_table", "verifier_key_as_functionary", "verifier_key_as_functionary", "link_garbage", "link_misfiled", "link_cosigned_forgery", "cosigned_next_to_differing", "threshold_zero_nolinks", "threshold_zero_norules", "threshold_zero_norules", "threshold_zero_onelink", "threshold_raised", "threshold_raised", "link_wrong_type", "ghost_authorized_prefix", "ghost_authorized_prefix", "twin_unauthorized", "twin_unauthorized", "duplicate_step_unmet", "duplicate_step_unmet", "sub_tampered", "sub_missing_link", "sub_expired", "sub_unlisted_functionary", "sub_unlisted_functionary", "none"],
         "C07" => &["disagree_product_digest", "disagree_material_path", "disagree_extra_entry", "disagree_t1", "agree_extra_differs", "cosigned_next_to_differing", "disagree_path_spelling", "disagree_alias_entry", "disagree_algorithm_set", "disagree_algorithm_set", "disagree_empty_entry", "disagree_moved_across", "disagree_moved_across", "disagree_missing_entry", "disagree_missing_entry", "none"],
-        "C13" => &["differing_links_t1", "differing_links_t1_rules", "none", "nested_namesake", "nested_namesake", "nested_namesake", "link_removed", "disagree_product_digest", "disagree_extra_entry", "cosigned_next_to_differing", "cosigned_next_to_differing", "digest_partial_agreement", "digest_partial_agreement", "sub_missing_link", "sub_rule", "sub_expired"],
-        "C08" => &["insp_exit", "insp_notfound", "insp_rule", "insp_rule_named_like_step", "pre_expired", "pre_badsig", "pre_link_removed", "pre_rule", "pre_disagree", "pre_cosigned_forgery", "pre_cosigned_forgery", "pre_co_sub_disagree", "pre_co_sub_disagree", "sub_expired", "sub_expired_surplus", "sub_expired_surplus", "sub_insp_exit_surplus", "sub_insp_exit_surplus", "sub_rule_surplus", "sub_tampered", "none"],
-        "C15" => &["no_steps", "no_steps_inner", "sub_wrong_signer", "sub_expired", "sub_missing_link", "sub_links_in_parent", "sub_inner_step_names_parent", "sub_inner_step_names_parent", "sub_rule", "sub_unauthorized_inner", "sub_delegator_key_as_functionary", "sub_delegator_key_as_functionary", "sub_tampered", "sub_insp_exit", "sub_insp_rule", "sub_dir_misnamed", "sub_dir_misnamed", "sub_misfiled", "sub_misfiled", "sub_rule_surplus", "sub_missing_link_surplus", "sub_expired_surplus", "sub_insp_exit_surplus", "none"],
+        "C13" => &["link_extra_sig_same_prefix", "link_extra_sig_same_prefix", "differing_links_t1", "differing_links_t1_rules", "none", "nested_namesake", "nested_namesake", "nested_namesake", "link_removed", "disagree_product_digest", "disagree_extra_entry", "cosigned_next_to_differing", "cosigned_next_to_differing", "digest_partial_agreement", "digest_partial_agreement", "sub_missing_link", "sub_rule", "sub_expired"],
+        "C08" => &["insp_exit", "insp_exit_shadowed", "insp_exit_shadowed", "insp_notfound", "insp_rule", "insp_rule_named_like_step", "pre_expired", "pre_badsig", "pre_link_removed", "pre_rule", "pre_disagree", "pre_cosigned_forgery", "pre_cosigned_forgery", "pre_co_sub_disagree", "pre_co_sub_disagree", "sub_expired", "sub_expired_surplus", "sub_expired_surplus", "sub_insp_exit_surplus", "sub_insp_exit_surplus", "sub_rule_surplus", "sub_tampered", "none"],
+        "C15" => &["no_steps", "no_steps_inner", "sub_wrong_signer", "sub_expired", "sub_missing_link", "sub_links_in_parent", "sub_inner_step_names_parent", "sub_inner_step_names_parent", "sub_unlisted_functionary", "sub_links_nested_below", "sub_links_nested_below", "sub_rule", "sub_unauthorized_inner", "sub_delegator_key_as_functionary", "sub_delegator_key_as_functionary", "sub_tampered", "sub_insp_exit", "sub_insp_rule", "sub_dir_misnamed", "sub_dir_misnamed", "sub_misfiled", "sub_misfiled", "sub_rule_surplus", "sub_missing_link_surplus", "sub_expired_surplus", "sub_insp_exit_surplus", "none"],
         // (C12: every way a signature can be attributed to, checked against or counted for another key than
         // the one whose identifier it carries - at the root, in a step, in a sub-layout)
         "C12" => &["link_cosigned_forgery", "link_cosigned_forgery", "link_mislabel", "link_misfiled", "link_wrong_signer", "owner_sig_mislabel", "owner_sigs_under_foreign_ids", "caller_alias", "caller_alias_described", "ghost_authorized_prefix", "twin_unauthorized", "sub_wrong_signer", "sub_misfiled", "key_not_in_table", "verifier_key_as_functionary", "layout_keys_refiled"],
@@ -70,6 +70,17 @@ pub(crate) fn inject(prop: &str, s: &mut Scenario, r: &mut Rng, pool: &[KeyInfo]
     if prop == "C08" && r.chance(1, 3) {
         if let Some(f) = inject_kind(prop, "pre_co_sub_disagree", s, r, pool) {
             return Some(f);
+        }
+    }
+    // (C02: where a multi-party step has delegated evidence, half of the time one of the sub-layouts is broken)
+    if prop == "C02" && r.chance(1, 2) {
+        let multi = matches!(&s.block.meta, SMeta::Layout(l) if l.steps.iter().any(|st| st.threshold >= 2
+            && evidence_files(&s.dir, &st.name).iter().any(|&f| matches!(&s.dir.files[f].1, SFile::Block(b) if matches!(b.meta, SMeta::Layout(_))))));
+        if multi {
+            let k = *r.pick(&["sub_tampered", "sub_missing_link", "sub_expired"]);
+            if let Some(f) = inject_kind(prop, k, s, r, pool) {
+                return Some(f);
+            }
         }
     }
     inject_kind(prop, kind, s, r, pool)
@@ -184,7 +195,17 @@ pub(crate) fn inject_kind(prop: &str, kind: &str, s: &mut Scenario, r: &mut Rng,
         "layout_tampered" => {
             let orig = s.block.meta.clone();
             let l = layout_mut(&mut s.block)?;
-            match r.below(5) {
+            match r.below(7) {
+                5 | 6 => {
+                    // the signed layout forbids `secret/*` (`lib/*.so` ...) in the first step's products; the layout
+                    // as enforced spells that pattern with a backslash - another pattern, which matches nothing here
+                    let (a, b) = *r.pick(&[("secret/*", "secret\\*"), ("lib/*.so", "lib\\*.so"), ("a/b/c", "a\\b/c")]);
+                    let mut signed = l.clone();
+                    signed.steps[0].prods.insert(0, ArtifactRule::Disallow(vp(a)));
+                    l.steps[0].prods.insert(0, ArtifactRule::Disallow(vp(b)));
+                    s.block.signed_over = Some(Box::new(SMeta::Layout(signed)));
+                    return Some(("C01", "the layout was changed after it was signed (a rule pattern: `/` became a backslash)".into(), true));
+                }
                 0 => l.readme.push('x'),
                 1 => l.expires = l.expires + Duration::seconds(1),
                 2 => l.steps[0].threshold = l.steps[0].threshold.saturating_sub(1),
@@ -468,6 +489,24 @@ pub(crate) fn inject_kind(prop: &str, kind: &str, s: &mut Scenario, r: &mut Rng,
                 }
             }
             Some((if kind.starts_with("pre_") { "C08" } else { "C02" }, format!("{} (step {})", desc, l.steps[si].name), true))
+        }
+        "link_extra_sig_same_prefix" => {
+            // a link that carries, after its functionary's valid signature, a second entry under an id no key
+            // has - one that starts with the same eight digits as the functionary's. The file is evidence of
+            // the first signature that fits its name: the functionary's. Harmless, on every run.
+            let l = layout_mut(&mut s.block)?.clone();
+            let si = r.below(l.steps.len());
+            trim_spares(&l, &mut s.dir, si);
+            let idx = evidence_files(&s.dir, &l.steps[si].name);
+            let fi = *idx.first()?;
+            let fname = s.dir.files[fi].0.clone();
+            let short = fname[l.steps[si].name.len() + 1..fname.len() - 5].to_string();
+            if let SFile::Block(b) = &mut s.dir.files[fi].1 {
+                if b.sigs.len() == 1 && short.len() == 8 && short.bytes().all(|c| c.is_ascii_hexdigit()) {
+                    b.dup_first_sig_as = Some(format!("{}{}", short, "5c".repeat(28)));
+                }
+            }
+            None
         }
         "step_without_functionaries" => {
             // a step that authorizes nobody (an empty `pubkeys` list): the links lying there for it, validly
@@ -954,6 +993,20 @@ pub(crate) fn inject_kind(prop: &str, kind: &str, s: &mut Scenario, r: &mut Rng,
             l.inspect[ii].prods = vec![ArtifactRule::Disallow(vp("made-by-the-namesake")), ArtifactRule::Allow(vp("*"))];
             Some(("C08", format!("an artifact rule of an inspection named like a step fails ({})", sname), true))
         }
+        "insp_exit_shadowed" => {
+            // two inspections of one name: the first one's command exits with a non-zero status, the one listed
+            // after it (whose link takes the entry over) exits with 0. The first one ran and failed.
+            let l = layout_mut(&mut s.block)?;
+            if l.inspect.is_empty() {
+                return None;
+            }
+            let ii = r.below(l.inspect.len());
+            let name = l.inspect[ii].name.clone();
+            let st = *r.pick(&[1, 3, 127, 255]);
+            let first = SInsp { name: name.clone(), mats: vec![ArtifactRule::Allow(vp("*"))], prods: vec![ArtifactRule::Allow(vp("*"))], script: Some(script("", &name, st, "")) };
+            l.inspect.insert(ii, first);
+            Some(("C08", format!("an inspection command does not end with exit status 0 ({} -> {}; an inspection of the same name, listed after it, exits with 0)", name, st), true))
+        }
         "insp_exit" | "insp_notfound" | "insp_rule" => {
             let l = layout_mut(&mut s.block)?;
             if l.inspect.is_empty() {
@@ -1139,6 +1192,65 @@ pub(crate) fn inject_kind(prop: &str, kind: &str, s: &mut Scenario, r: &mut Rng,
                         s.dir.subs[sp].0 = r.pick(&cands).clone();
                         desc = format!("the sub-layout's links are in `{}` instead of its own sub-directory `{}`", s.dir.subs[sp].0, subname);
                     }
+                    "sub_unlisted_functionary" => {
+                        // the (otherwise sound) sub-layout is signed by, and filed under, a key that the layout's key
+                        // table defines but this step does not list - a functionary trusted for other steps at most
+                        let sp = subdir_pos?;
+                        let x = match l.keys.iter().cloned().find(|k| !l.steps[si].pubkeys.iter().any(|&p| prefix8(pool, p) == prefix8(pool, *k))) {
+                            Some(k) => k,
+                            None => {
+                                let k = other_key(pool, r, &l.keys);
+                                if l.steps[si].pubkeys.iter().any(|&p| prefix8(pool, p) == prefix8(pool, k)) {
+                                    return None;
+                                }
+                                layout_mut(&mut s.block)?.keys.push(k);
+                                k
+                            }
+                        };
+                        let nn = format!("{}.{}.link", l.steps[si].name, prefix8(pool, x));
+                        let nd = format!("{}.{}", l.steps[si].name, prefix8(pool, x));
+                        if s.dir.files.iter().any(|f| f.0 == nn) || s.dir.subs.iter().any(|d| d.0 == nd) {
+                            return None;
+                        }
+                        let SFile::Block(b) = &mut s.dir.files[fi].1 else { return None };
+                        b.sigs = vec![SSig { label: x, signer: x, corrupt: false }];
+                        s.dir.subs[sp].0 = nd;
+                        s.dir.files[fi].0 = nn;
+                        let label = if prop == "C02" { "C02" } else { "C15" };
+                        return Some((label, format!("the delegated evidence is signed by and filed under a key of the layout that the step does not list (step {})", l.steps[si].name), true));
+                    }
+                    "sub_links_nested_below" => {
+                        // the sub-layout's first inner step has its (validly signed) link not in the sub-layout's own
+                        // sub-directory but in a directory below it (`previous-run/`, `a/b/`)
+                        let il = layout_mut(b)?.clone();
+                        let sp = subdir_pos?;
+                        if il.steps.is_empty() {
+                            return None;
+                        }
+                        let inner_step = il.steps[0].name.clone();
+                        let idx = evidence_files(&s.dir.subs[sp].1, &inner_step);
+                        if idx.is_empty() {
+                            return None;
+                        }
+                        let mut moved = vec![];
+                        for &j in idx.iter().rev() {
+                            moved.push(s.dir.subs[sp].1.files.remove(j));
+                        }
+                        if moved.iter().any(|m| !matches!(&m.1, SFile::Block(ib) if matches!(ib.meta, SMeta::Link(_)))) {
+                            return None;
+                        }
+                        let below = *r.pick(&["previous-run", "a", "links"]);
+                        let mut nested = SDir::default();
+                        nested.files = moved;
+                        if below == "a" {
+                            let mut outer = SDir::default();
+                            outer.subs.push(("b".to_string(), nested));
+                            s.dir.subs[sp].1.subs.push(("a".to_string(), outer));
+                        } else {
+                            s.dir.subs[sp].1.subs.push((below.to_string(), nested));
+                        }
+                        desc = "a link required by the sub-layout lies in a directory below the sub-layout's own sub-directory".into();
+                    }
                     "sub_inner_step_names_parent" => {
                         // the first inner step is called `../<name>`: its evidence would be `<name>.<id>.link` one
                         // level up, in the enclosing layout's directory - where the (validly signed) link is put.
@@ -1257,7 +1369,8 @@ pub(crate) fn inject_kind(prop: &str, kind: &str, s: &mut Scenario, r: &mut Rng,
             if let Some(nn) = rename_to {
                 s.dir.files[fi].0 = nn;
             }
-            let label = if k == "sub_expired" && prop == "C06" { "C06" } else if prop == "C08" { "C08" } else { "C15" };
+            // (C02: delegated evidence that does not verify is no evidence - what is left must still meet the threshold)
+            let label = if k == "sub_expired" && prop == "C06" { "C06" } else if prop == "C08" { "C08" } else if prop == "C02" { "C02" } else { "C15" };
             Some((label, format!("{}{} (step {})", desc, if surplus { ", next to other evidence that meets the threshold" } else { "" }, l.steps[si].name), true))
         }
         _ => None,
@@ -1398,6 +1511,7 @@ pub fn run_into(sink: &mut Sink, cfg: &Cfg, prop: &str, n: usize) {
             // (every third C07 scenario: two functionaries of a threshold-2 step hand in one and the same
             // sub-layout, each with evidence in a directory of their own)
             "C07" if i % 3 == 0 => 1,
+            "C02" if i % 6 == 3 => 1,
             "C13" | "C08" => r.below(2),
             _ => r.below(2),
         };
@@ -1405,7 +1519,7 @@ pub fn run_into(sink: &mut Sink, cfg: &Cfg, prop: &str, n: usize) {
         // some of them with rules about the link files that a sibling's inspection leaves behind)
         let siblings = (prop == "C13" || prop == "C08") && i % 6 == 0;
         let allow_insp = matches!(prop, "C08") || siblings || r.chance(1, 4);
-        let mut g = Gen { r: &mut r, pool: &pool, insp_counter, force_delegate: prop == "C15" || ((prop == "C06" || prop == "C08" || prop == "C13") && i % 3 == 0), multi_party: (prop == "C07" && i % 3 != 0) || (prop == "C13" && i % 3 == 1), co_delegate: ((prop == "C15" || prop == "C07") && i % 3 == 0) || (prop == "C08" && i % 6 == 3), now: base_now(), reuse_keys: vec![], inner_insp_always: siblings, same_material_pair: prop == "C13" && i % 5 == 2 };
+        let mut g = Gen { r: &mut r, pool: &pool, insp_counter, force_delegate: prop == "C15" || ((prop == "C06" || prop == "C08" || prop == "C13") && i % 3 == 0), multi_party: (prop == "C07" && i % 3 != 0) || (prop == "C13" && i % 3 == 1), co_delegate: ((prop == "C15" || prop == "C07") && i % 3 == 0) || ((prop == "C08" || prop == "C02") && i % 6 == 3), now: base_now(), reuse_keys: vec![], inner_insp_always: siblings, same_material_pair: prop == "C13" && i % 5 == 2 };
         let mut s = g.valid(depth, allow_insp);
         insp_counter = g.insp_counter;
         // (C06: where the verifier sits - zones west and east of Greenwich, whole and fractional hours)
@@ -1458,12 +1572,12 @@ pub fn run_into(sink: &mut Sink, cfg: &Cfg, prop: &str, n: usize) {
         // was just verified (same paths; files of unchanged size keep their modification time)
         let mut place = None;
         let mut base_answer = None;
-        if !s.faults.is_empty() && (prop == "C01" || i % 2 == 0 || s.faults.iter().any(|f| f.1.contains("verified again"))) {
+        if !s.faults.is_empty() && (prop == "C01" || prop == "C07" || i % 2 == 0 || s.faults.iter().any(|f| f.1.contains("verified again"))) {
             let here = tempfile::Builder::new().prefix("itv-e2e-place-").tempdir().unwrap();
             let b = crate::e2e::run_at(&pool, &base, here.path(), false);
             sink.stat(if b.ok { "history/base-ok" } else { "history/base-err" });
             sink.oracle(!b.panicked, "verification panicked", &b.op);
-            if i % 4 != 2 {
+            if i % 4 != 2 || prop == "C07" {
                 place = Some(here);
                 base_answer = Some((b.answer.clone(), b.op.clone()));
             }
@@ -1515,7 +1629,8 @@ pub fn run_into(sink: &mut Sink, cfg: &Cfg, prop: &str, n: usize) {
         if let SMeta::Layout(l) = &s.block.meta {
             let listed: Vec<&String> = l.inspect.iter().map(|i| &i.name).collect();
             let ran: Vec<&String> = out.top_events_in_order.iter().collect();
-            let expected: Vec<&String> = listed.iter().filter(|n| ran.contains(n)).cloned().collect();
+            // (they are started one after the other until one fails: what ran is a beginning of the list)
+            let expected: Vec<&String> = listed.iter().take(ran.len()).cloned().collect();
             sink.oracle(ran == expected, &format!("the inspections did not run in the order the layout lists them (listed {:?}, ran {:?})", listed, ran), &replay);
         }
         for w in &out.inspection_material_faults {
@@ -1590,6 +1705,12 @@ pub fn run_into(sink: &mut Sink, cfg: &Cfg, prop: &str, n: usize) {
     //      has expired - under the requested names a top-level call and a delegation use
     if prop == "C06" || prop == "C08" {
         *crate::e2e::REAL_CLOCK.lock().unwrap() = true;
+        // (the moment of verification is read from the system clock - not from what the process environment says
+        // the date is: build systems export SOURCE_DATE_EPOCH, test rigs FAKETIME and the like; here they name a
+        // day long before the layout expires)
+        for (k, v) in [("SOURCE_DATE_EPOCH", "1000000000"), ("FAKETIME", "2001-09-09 01:46:40"), ("IN_TOTO_NOW", "2001-09-09T01:46:40Z"), ("NOW", "1000000000")] {
+            std::env::set_var(k, v);
+        }
         for name in [None, Some("final".to_string())] {
             // (a scenario that verifies under a pinned clock: some generated ones are meant not to)
             let mut found = None;
@@ -1630,6 +1751,9 @@ pub fn run_into(sink: &mut Sink, cfg: &Cfg, prop: &str, n: usize) {
             if prop == "C08" {
                 sink.oracle(late.events.is_empty(), "an inspection of a layout that had expired by the time of the call was run (system clock)", &late.op);
             }
+        }
+        for k in ["SOURCE_DATE_EPOCH", "FAKETIME", "IN_TOTO_NOW", "NOW"] {
+            std::env::remove_var(k);
         }
         *crate::e2e::REAL_CLOCK.lock().unwrap() = false;
     }
